@@ -31,7 +31,7 @@ type c12EOFCase struct {
 	Writes []int  `json:"writes"` // one record each
 	Close  int    `json:"close"`  // 0: sender just stops, 1: Close (close-notify), 2: CloseWrite
 	Cut    int    `json:"cut"`    // bytes of the post-handshake stream that still arrive (-1: all)
-	Chunk  int    `json:"chunk"`  // 0 whole, 1 one byte per transport read, 2 record-aligned (a partial tail arrives in its own read)
+	Chunk  int    `json:"chunk"`  // 0 whole, 1 one byte per transport read, 2 record-aligned (a partial tail arrives in its own read); +3: the transport reports io.EOF together with the last bytes (n > 0, io.EOF in one call)
 	Buf    int    `json:"buf"`
 }
 
@@ -95,7 +95,8 @@ func c12RunEOF(c c12EOFCase) (sig, msg string, nontrivial bool) {
 		e.inEOF = true
 		recs, rest := vfSplitRecords(data)
 		var sched []int
-		switch c.Chunk {
+		e.eofWithData = c.Chunk >= 3
+		switch c.Chunk % 3 {
 		case 1:
 			e.seg = func(int) int { return 1 }
 		case 2:
@@ -590,8 +591,10 @@ func c12RunAPI(c c12APICase) (sig, msg string, nt bool) {
 		ops := 0
 		fired := false
 		end := sim.ends[c.Side]
+		after := c.J >= 100 // J >= 100: cancel when operation J-100 has been carried out (its data delivered) instead of before it
+		target := c.J % 100
 		hook := func(int) {
-			if ops == c.J && !fired {
+			if ops == target && !fired {
 				fired = true
 				cancel()
 				// wait until the interrupter has closed the transport, so that the outcome is deterministic
@@ -608,7 +611,11 @@ func c12RunAPI(c c12APICase) (sig, msg string, nt bool) {
 			}
 			ops++
 		}
-		end.onRead, end.onWrite = hook, hook
+		if after {
+			end.afterRead, end.afterWrite = hook, hook
+		} else {
+			end.onRead, end.onWrite = hook, hook
+		}
 		done := make(chan error, 1)
 		go func() { done <- y.Handshake() }()
 		err := x.HandshakeContext(ctx)
@@ -622,7 +629,15 @@ func c12RunAPI(c c12APICase) (sig, msg string, nt bool) {
 			return "", "", false
 		}
 		if !errors.Is(err, context.Canceled) {
-			return "cancel-error", fmt.Sprintf("context cancelled at transport operation %d of the handshake, HandshakeContext returned %v", c.J, err), true
+			return "cancel-error", fmt.Sprintf("context cancelled at transport operation %d of the handshake (after it was carried out: %v; the transport had been closed by the cancellation before the call went on), HandshakeContext returned %v", target, after, err), true
+		}
+		if after {
+			// the handshake may have been complete internally when the cancellation arrived: only the
+			// reported error and the dead transport are asserted
+			if n, err := x.Read(buf); n != 0 || err == nil {
+				return "read-after-cancel", fmt.Sprintf("Read returned (%d, %v) after a cancelled handshake", n, err), true
+			}
+			return "", "", true
 		}
 		if e2 := x.Handshake(); e2 == nil {
 			return "cancel-not-sticky", "Handshake succeeded after a cancelled handshake", true
@@ -636,7 +651,7 @@ func c12RunAPI(c c12APICase) (sig, msg string, nt bool) {
 }
 
 func TestVF_C12(t *testing.T) {
-	recA := vfRec("C12", "C12a-eof", "after an honest handshake the sender's records (several writes, optionally followed by close-notify through Close or CloseWrite) are held back and a prefix of every length is delivered under three chunkings (whole; one byte per transport read; record-aligned so that a partial tail arrives alone), then the transport ends; oracle: data of whole records, io.EOF only after close-notify or at a record boundary, io.ErrUnexpectedEOF inside a record, error sticky; non-trivial = a cut before the end or a close-notify; distinct = the case")
+	recA := vfRec("C12", "C12a-eof", "after an honest handshake the sender's records (several writes, optionally followed by close-notify through Close or CloseWrite) are held back and a prefix of every length is delivered under three chunkings (whole; one byte per transport read; record-aligned so that a partial tail arrives alone), then the transport ends, reporting io.EOF either in a read of its own or together with the last bytes; oracle: data of whole records, io.EOF only after close-notify or at a record boundary, io.ErrUnexpectedEOF inside a record, error sticky; non-trivial = a cut before the end or a close-notify; distinct = the case")
 	idx := 0
 	suites := []uint16{ECC_SM4_GCM_SM3, ECC_SM4_CBC_SM3}
 	for _, suite := range suites {
@@ -665,8 +680,8 @@ func TestVF_C12(t *testing.T) {
 					total = n
 				}
 				for cut := -1; cut <= total; cut++ {
-					for chunk := 0; chunk <= 2; chunk++ {
-						if !vfThorough() && chunk == 1 && cut%3 != 0 {
+					for chunk := 0; chunk <= 5; chunk++ {
+						if !vfThorough() && chunk%3 == 1 && cut%3 != 0 {
 							continue
 						}
 						idx++
@@ -690,7 +705,7 @@ func TestVF_C12(t *testing.T) {
 	vfRapid(t, recA, "eof-random", vfN(400, 8000), func(t *rapid.T) {
 		c := c12EOFCase{Suite: rapid.SampledFrom(vfSuites).Draw(t, "suite"), Dir: rapid.IntRange(0, 1).Draw(t, "dir"),
 			Writes: rapid.SliceOfN(rapid.IntRange(1, 400), 1, 4).Draw(t, "writes"), Close: rapid.IntRange(0, 2).Draw(t, "close"),
-			Cut: rapid.IntRange(-1, 900).Draw(t, "cut"), Chunk: rapid.IntRange(0, 2).Draw(t, "chunk"), Buf: rapid.SampledFrom([]int{1, 7, 4096}).Draw(t, "buf")}
+			Cut: rapid.IntRange(-1, 900).Draw(t, "cut"), Chunk: rapid.IntRange(0, 5).Draw(t, "chunk"), Buf: rapid.SampledFrom([]int{1, 7, 4096}).Draw(t, "buf")}
 		sig, msg, nt := c12RunEOF(c)
 		if sig != "" {
 			recA.Fail(t, sig, c, "%s", msg)
@@ -729,7 +744,7 @@ func TestVF_C12(t *testing.T) {
 	}
 	recB.SetExhaustive(vfThorough(), fmt.Sprintf("%d alert cases (5 levels x 256 codes x 2 roles in the thorough tier)", j))
 
-	recC := vfRec("C12", "C12c-api", "API histories: Close then Read/Write, double Close, Write after CloseWrite (read half still usable, peer sees EOF), CloseWrite before completion, failed handshake stays failed (Handshake, Read, Write), application data injected in the clear before every record of the handshake, context cancellation at every transport operation of the handshake, a Write failing on a transport write timeout (before the first / between the records of one payload) must stay failed after the deadline is cleared and the peer sees only a prefix; both sides, suites GCM and CBC; distinct = the case")
+	recC := vfRec("C12", "C12c-api", "API histories: Close then Read/Write, double Close, Write after CloseWrite (read half still usable, peer sees EOF), CloseWrite before completion, failed handshake stays failed (Handshake, Read, Write), application data injected in the clear before every record of the handshake, context cancellation before and right after every transport operation of the handshake (including the last one), a Write failing on a transport write timeout (before the first / between the records of one payload) must stay failed after the deadline is cleared and the peer sees only a prefix; both sides, suites GCM and CBC; distinct = the case")
 	k := 0
 	for _, suite := range suites {
 		for side := 0; side < 2; side++ {
@@ -745,7 +760,14 @@ func TestVF_C12(t *testing.T) {
 				case "write-error-sticky":
 					maxJ = 5
 				}
+				js := []int{}
 				for jj := 0; jj <= maxJ; jj++ {
+					js = append(js, jj)
+					if kind == "cancel" {
+						js = append(js, 100+jj)
+					}
+				}
+				for _, jj := range js {
 					k++
 					if !vfMine(k) {
 						continue
